@@ -12,12 +12,12 @@ namespace Theo
 
 /-- FIRST sets equal their textbook definition (terminals and ε) -/
 theorem C13_first_correct (g : Grammar) (hg : g.Closed) (n a : Nat) (hn : n < g.numNT) :
-    a ∈ (firstSets g).firstOf n ↔ First g n a := by
-  sorry
+    a ∈ (firstSets g).firstOf n ↔ First g n a :=
+  FirstProofs.first_correct g hg n a
 
 theorem C13_nullable_correct (g : Grammar) (hg : g.Closed) (n : Nat) (hn : n < g.numNT) :
-    (firstSets g).nullOf n = true ↔ Nullable g n := by
-  sorry
+    (firstSets g).nullOf n = true ↔ Nullable g n :=
+  FirstProofs.nullable_correct g hg n
 
 /-- the tables of `genTables` with a generous state budget: `fuel` only bounds how many states
     are expanded; soundness holds for every `fuel` -/
